@@ -9,8 +9,8 @@ git -C /repo worktree add -q --detach "$W/r" HEAD || exit 3
 R="$W/r"
 orig=$(grep -o '/tmp/wt[0-9]*/[A-Za-z0-9_]*' "$CMD" | head -1)
 cmd=$(head -1 "$CMD" | sed "s#$orig#$R#g")
-cp "$DEMO" "$R/demo.cpp"
-clean() { rm -rf "$R/bin" "$R/pairing.a" "$R/tests/bin" "$R/tests/pairing.a" "$R/tests/test" "$R/demo"; }
+cp "$DEMO" "$R/$(basename "$DEMO")"
+clean() { rm -rf "$R/demo_build" "$R/demo_bin" "$R/bin" "$R/pairing.a" "$R/tests/bin" "$R/tests/pairing.a" "$R/tests/test" "$R/demo"; }
 {
 echo "== seed $ID; repo HEAD $(git -C /repo rev-parse --short HEAD)"
 echo "== demo command: $cmd"
